@@ -1,5 +1,5 @@
-import MQ.Inv.RingMain
-import MQ.Inv.ModeDefs
+import MQ.Inv.ModeMain
+import MQ.Props.C01
 /-!
 # C12 — handles may be cloned and dropped during traffic without visible effect
 -/
@@ -29,5 +29,45 @@ theorem C12_sender_clone_drop_frame (σ : St) (t inp : Nat) (h : (σ.th t).pc = 
 theorem C12_receiver_clone_drop_frame (σ : St) (t inp : Nat) (h : (σ.th t).pc = .cr1 ∨ (σ.th t).pc = .dr1) :
     (stepRun σ t inp).2.ring = σ.ring := by
   rcases h with h | h <;> exact stepRun_ring_same σ t inp (by rw [h]; rfl)
+
+/-! ### the handle accounting is an invariant — `ModeOK` is a theorem
+
+Scope (`Label.noConv`): executions that never call `into_single` / `into_multi` of the *futures* receivers (these
+two calls re-wire an existing handle to another stream inside one call; the accounting of that hand-over is not
+covered). Everything else is covered: clone and drop of senders and receivers, `add_stream`, `unsubscribe`,
+`into_single` / `into_multi` of the plain receivers, all send / receive / view / wait / notify programs, the
+manager's sub-programs, teardown. -/
+
+/-- C12 (accounting): in every state of every such execution `writers` is the number of counted sender handles,
+`num_consumers` of a stream the number of its counted receiver handles, a counted Uni/Single/view handle is the
+only counted one, live idle handles are counted, no two threads use — or create — the same handle. -/
+theorem C12_handle_accounting_partial (N : Nat) (bcast : Bool) (wait : WaitK) (fut : Bool) (ls : List Label)
+    (h : ∀ l ∈ ls, l.noConv) : MInv (runFrom (init N bcast wait fut) ls) :=
+  (minv_run _ ls h (minv_init N bcast wait fut) (reginv_init N bcast wait fut)).1
+
+/-- C12: hence the fast paths are exclusive in every such execution — no hypothesis left. -/
+theorem C12_single_paths_exclusive_all_runs_partial (N : Nat) (bcast : Bool) (wait : WaitK) (fut : Bool)
+    (ls : List Label) (h : ∀ l ∈ ls, l.noConv) : ModeOK (runFrom (init N bcast wait fut) ls) :=
+  modeOK_run N bcast wait fut ls h
+
+/-- C12 (bridge): an execution whose steps satisfy only the exclusions of the two known findings (`StepOK'`: no
+`add_stream` publication racing with a commit on the parent stream — F1; the stream list never becomes empty —
+F12) and that does not use the two futures conversions is a `GoodRun`: every `GoodRun` theorem of C01–C07
+applies to it without any assumption about modes. -/
+theorem C12_goodRun_without_mode_hypothesis (N : Nat) (bcast : Bool) (wait : WaitK) (fut : Bool)
+    (ls : List Label) (σ : St) (r : NRun (init N bcast wait fut) ls σ) : GoodRun (init N bcast wait fut) ls σ :=
+  (goodRun_of_nrun r (minv_init N bcast wait fut) (reginv_init N bcast wait fut)).1
+
+/-- … for instance exactly-once delivery (C01) -/
+theorem C12_exactly_once_without_mode_hypothesis_partial (N : Nat) (bcast : Bool) (wait : WaitK) (fut : Bool)
+    (hN : 0 < N) (ls : List Label) (σ : St) (r : NRun (init N bcast wait fut) ls σ) :
+    ∀ s, s ∈ σ.groups σ.cur →
+      σ.dlv s = (σ.log.drop (σ.start s)).take (σ.pos s - σ.start s) ∧
+      σ.start s ≤ σ.pos s ∧ σ.pos s ≤ σ.log.length :=
+  C01_exactly_once_partial N bcast wait fut hN ls σ (C12_goodRun_without_mode_hypothesis N bcast wait fut ls σ r)
+
+/-- the premises are satisfiable: a sender clone call is an `NRun` step from the initial state -/
+example : NRun (init 4 true .busy false) [.call 0 .clone 0 0 2 0] (step (init 4 true .busy false) (.call 0 .clone 0 0 2 0)) :=
+  .cons rfl (.nil _)
 
 end MQ
